@@ -4,11 +4,13 @@
 // Fault enumeration (E2) on the real producers/consumers: every stream the
 // codecs touch is a scripted double whose behaviour (chunk sizes, zero-length
 // reads, data together with EOF, failure at any read or write) is a choice
-// point. For short contents EVERY choice sequence is executed; for long
-// contents and documents every sequence with at most `bound` deviations from
-// the bytes.Reader-like default (1 quick, 2 thorough). The static axes (codec x
-// source/destination kind x stream kind x closing option x content) are a
-// full product (E1).
+// point. For every content of up to 3 (quick) / 4 (thorough) bytes over
+// {a, \x00, \xff, \n} EVERY choice sequence is executed; longer contents and
+// the documents of the structured codecs get every sequence with at most
+// `bound` deviations from the bytes.Reader-like default (long contents 1 quick /
+// 2 thorough; medium contents and round-trip documents one more). The static
+// axes (codec x source/destination kind x stream kind x closing option x
+// content) are a full product (E1). buildCases is the authoritative list.
 package main
 
 import (
